@@ -7,7 +7,7 @@ MODES = {0: 'no parent at all', 1: 'explicit valid SpanContext', 2: 'explicit Co
 def h(mode):
     return dict(src='c05_tracer.cc', defines=['PARENT_MODE=%d' % mode, 'OTEL_INTERNAL_LOG_LEVEL=0'], overrides=TS_OVERRIDES + [SP_RELEASE],
                 models=TS_MODELS + ['libc.c', 'cxxrt.c', 'stdstring.c', 'single_threaded.c', 'pthread_clock.c', SP_LEAK_MODEL], gen_models=gen_regex_tables)
-US = {'re_match': 10, 'bcmp': 14, 'strlen': 14, 'memcmp': 14}
+US = {'re_match': 10, 'bcmp': 24, 'strlen': 24, 'memcmp': 24, 'verif_mem': 70}
 HARNESSES = {}; QUERIES = []
 for mode in MODES:
     HARNESSES['c05_p%d' % mode] = h(mode)
